@@ -56,6 +56,6 @@ Verdict ==
     THEN PrintT("@@V" \o ToJson([tid |-> tid,
                                   fail |-> IF FRunning(s) THEN {"spec-still-running"} ELSE Failing,
                                   spec |-> [outcome |-> ExpectedOutcome, ops |-> s.m.ops, calls |-> s.calls,
-                                            stop |-> s.stop, phase |-> s.m.phase, nhist |-> Len(s.m.hist)]]))
+                                            stop |-> s.stop, phase |-> s.m.phase, nhist |-> Len(s.m.hist), topop |-> TopOp(s.m)]]))
     ELSE TRUE
 =============================================================================
